@@ -476,13 +476,15 @@ func c18(e *Env) {
 		c18U32Child(e)
 		return
 	}
-	r.Rule("primitive level: every prefixed writer (WriteString, WriteBasicTypeList ×5 element types, WriteFixedStringListWithPadding, WriteStringList count and per-element length, WriteObjectList; BE and LE variants) × prefix u8 and u16 × lengths {max-1, max, max+1, 2·max+1}; message level: every prefixed-text / list / object-list field of every message type set to exactly max and max+1 (all other fields canonical), and every such body field at max+1 inside its frame (error must propagate); thorough: 2^32 and 2^32+5 bytes behind a u32 text prefix via a 4 GiB never-touched mapping, in a child process. distinct_nontrivial = distinct (site, length) observations")
+	r.Rule("primitive level: every prefixed writer (WriteString, WriteBasicTypeList ×5 element types, WriteFixedStringListWithPadding, WriteStringList count and per-element length, WriteObjectList; BE and LE variants) × prefix u8, u16 and defined types over them (`type Len uint16`) × lengths {max-1, max, max+1, 2·max+1}; message level: every prefixed-text / list / object-list field of every message type set to exactly max and max+1 (all other fields canonical), and every such body field at max+1 inside its frame (error must propagate); thorough: 2^32 and 2^32+5 bytes behind a u32 text prefix via a 4 GiB never-touched mapping, in a child process. distinct_nontrivial = distinct (site, length) observations")
 	r.Explain("Oracle: length <= prefix maximum ⇒ nil error and the matching reader returns the value (message level: full round trip ≡); length > maximum ⇒ non-nil error. A nil error above the maximum is the silent wrap the property forbids. 2^32-element lists (32 GiB of slice headers) are not reachable in this sandbox and are not claimed.")
 	r.Assume("u32-prefixed lists beyond 2^32 elements are out of reach (memory); u32-prefixed text is exercised in the thorough tier only")
 	if e.Only == "" || e.Only == "primitives" {
 		c := &c18ctx{e: e, prims: map[string]int{}}
 		c18Prefix[uint8](c)
 		c18Prefix[uint16](c)
+		c18Prefix[namedPfx8](c) // defined prefix types (type Len uint16) are admitted by the ~ constraint
+		c18Prefix[namedPfx16](c)
 		r.Set("primitive_instantiations", len(c.prims))
 		r.DistinctAdd(int64(len(c.prims)) * 4)
 		r.Sample(map[string]any{"primitives": sortedKeys(c.prims)[:8], "lengths": "max-1, max, max+1, 2*max+1"})
